@@ -83,7 +83,37 @@ def gen_uf_chain(rng, n):
     return {"kind": "uf", "n": n, "ops": [list(o) for o in ops]}
 
 
+def gen_uf_bigidx(rng, big):
+    """Indices above CPython's small-int cache (>= 257): every index is a distinct int object (the
+    implementation worker re-creates them), so identity tests instead of equality show.  Repeated,
+    self and cycle-closing unions on purpose."""
+    n = rng.choice([300, 400, 600 if big else 500])
+    lo = 257
+    ops = []
+    pool = [rng.randrange(lo, n) for _ in range(12)]
+    for _ in range(rng.randint(20, 60)):
+        r = rng.random()
+        x, y = rng.choice(pool), rng.choice(pool)
+        if r < 0.5:
+            ops.append((UNION, x, y))
+            if rng.random() < 0.4:
+                ops.append((UNION, y, x) if rng.random() < 0.5 else (UNION, x, y))  # repeat
+        elif r < 0.6:
+            ops.append((UNION, x, x))
+        elif r < 0.75:
+            ops.append((CONN, x, y))
+        elif r < 0.85:
+            ops.append((FIND, x, 0))
+        else:
+            ops.append((COUNT, 0, 0))
+    ops.append((COUNT, 0, 0))
+    return {"kind": "uf", "n": n, "ops": [list(o) for o in ops], "fresh_ints": True}
+
+
 def gen_uf(rng, big):
+    r0 = rng.random()
+    if r0 < 0.06:
+        return gen_uf_bigidx(rng, big)
     if rng.random() < 0.3:
         return gen_uf_deep(rng, big)
     n = rng.choice([1, 2, 3, 4, 5, 6, 8, 12, 20, 40 if big else 30])
@@ -121,6 +151,9 @@ def gen_fen(rng, big):
         init = None  # FenwickTree(n)
     else:
         init = [rng.randint(-20, 20) for _ in range(n)]
+        if rng.random() < 0.12:  # numeric edge: a huge entry next to small ones (sums stay exact below 2^53)
+            init[rng.randrange(n)] = rng.choice([10 ** 13, -10 ** 13, 2 ** 45 + 1, 10 ** 12 + 7])
+            scale = 1
     ops = []
     for _ in range(rng.randint(1, 120 if big else 50)):
         r = rng.random()
@@ -146,7 +179,10 @@ def impl(case):
         uf = UnionFind(case["n"])
         duf = UnionFind(decoy["n"]) if decoy else None
         outs = []
+        fresh = case.get("fresh_ints")
         for idx, (k, x, y) in enumerate(case["ops"]):
+            if fresh:  # equal but never identical index objects (ints >= 257 are not cached)
+                x, y = int(str(x)), int(str(y))
             if duf is not None:
                 a, b = decoy["pairs"][idx % len(decoy["pairs"])]
                 duf.union(a, b)
